@@ -167,3 +167,33 @@ impl<T: CancelIo> CancelImpl<T> {
 }
 
 pub type Cancel = CancelImpl<CancelIoImpl>;
+
+/// keep the cancel of the current coroutine disabled as long as the guard lives
+/// it's a no-op in thread context
+///
+/// while the cancel is disabled `is_canceled()` is false, so the blocking APIs
+/// really block instead of returning/panicking at once, a cancel that arrives
+/// meanwhile stays pending and is delivered at the next cancellation point after
+/// the guard is dropped. the guard must be dropped by the coroutine that created it
+pub(crate) struct CancelDisableGuard(Option<&'static Cancel>);
+
+impl CancelDisableGuard {
+    pub fn new() -> Self {
+        let cancel = if crate::coroutine_impl::is_coroutine() {
+            let cancel = crate::coroutine_impl::current_cancel_data();
+            cancel.disable_cancel();
+            Some(cancel)
+        } else {
+            None
+        };
+        CancelDisableGuard(cancel)
+    }
+}
+
+impl Drop for CancelDisableGuard {
+    fn drop(&mut self) {
+        if let Some(cancel) = self.0 {
+            cancel.enable_cancel();
+        }
+    }
+}
